@@ -117,6 +117,9 @@ def items(tier, seed):
     for (w, t, e, r) in [('wide_integer<128, unsigned>', 'u128', [-3, -70, 1, -64][seed % 4], 2), ('wide_integer<127, int>', 'i128', [10, -1, -40, 0][seed % 4], 2),
                          ('wide_integer<128, unsigned>', 'u128', rnd.randint(-3, 3), 10), ('wide_integer<127, int>', 'i128', rnd.randint(-70, 70), 2)]:
         out.append((0.8, 'tc::scw_sweep<%s, %s, %d, %d>(v_%s, 3);' % (w, CT[t], e, r, t)))
+    # operator<< of multi-word wide_integer<D, int> for every digit count 129..320 (48 per statement)
+    for lo in (129, 177, 225, 273):
+        out.append((1.2, 'tc::oss_range<%d, 48>();' % lo))
     for (w, t) in wrappers:
         if t is None:
             t = [k for k in CT if CT[k] in w][0]
